@@ -49,6 +49,18 @@ JUNK = ["this is not fortran", "end", "end module nonexistent", "contains", "&",
         "msg = 'abc''def''ghi''jkl''mno''pqr''stu''vwx''yz and still no closing quote at all"]
 
 
+# whole files from the grammar of malformed constructs: entities that refer to themselves
+PATHOLOGICAL = [
+    "module selfmod\n  interface\n    module subroutine w()\n    end subroutine w\n  end interface\nend module selfmod\n"
+    "submodule (selfmod:selfsub) selfsub\nend submodule selfsub\n",
+    "module selfext\n  type, extends(loop_t) :: loop_t\n  contains\n    procedure :: foo\n  end type loop_t\ncontains\n"
+    "  subroutine foo(self)\n    class(loop_t) :: self\n  end subroutine foo\n  subroutine user()\n    type(loop_t) :: a\n"
+    "    call a%foo()\n  end subroutine user\nend module selfext\n",
+    "module selfuse\n  use selfuse\n  integer :: x\nend module selfuse\n",
+    "subroutine selfcall()\n  call selfcall()\nend subroutine selfcall\n",
+]
+
+
 def budget(tier):
     if tier == "quick":
         return {"examples": 4800, "shrink_cap_s": 40}
@@ -79,7 +91,7 @@ def calls_in_tree(tree, path):
     return None
 
 
-KINDS = [(5, "truncate"), (3, "truncate-in-construct"), (2, "splice"), (2, "drop-end"), (1, "dup-end"), (1, "drop-contains"), (1, "dup-contains"),
+KINDS = [(1, "self-reference"), (5, "truncate"), (3, "truncate-in-construct"), (2, "splice"), (2, "drop-end"), (1, "dup-end"), (1, "drop-contains"), (1, "dup-contains"),
          (3, "drop-procedure"),
          (2, "swap-keyword"), (3, "junk"), (1, "bytes"), (1, "empty"), (1, "truncate-midline")]
 SWAPS = [("subroutine", "function"), ("module", "program"), ("function", "subroutine"), ("type", "interface"),
@@ -122,6 +134,8 @@ def corrupt(plan, texts, cut=None):
         return "\n".join(lines[:k]) + "\n", kind
     if kind == "truncate-midline":
         return src[: at(len(src), plan["a"])], kind
+    if kind == "self-reference":
+        return PATHOLOGICAL[plan["a"] % len(PATHOLOGICAL)], kind
     if kind == "drop-procedure":
         # remove a whole procedure definition: bindings, generic interfaces, finalisers and calls that name it dangle
         # (the file usually still parses)
